@@ -21,7 +21,8 @@ import (
 //	  (under a lax subject check additionally: the other client registered live - the caller's method, every grant, a key - with and
 //	  without its client_id riding along)
 //
-// and, with wide=true (thorough tier), additionally application type(3) x id/secret needing percent-encoding(2).
+// and, with wide=true (thorough tier), additionally application type(3) x id/secret needing percent-encoding(2); the application
+// type axis is complete in every tier for the two presentations that merely name a client (client_id only, Basic with an empty password).
 // The remaining axes (conflicting client_id, parameters in the URL, private_key_jwt flag, storage faults, token_type_hint,
 // arbitrary grant subsets) are left to the sampled test.
 func sweepCells(wide bool) []Case {
@@ -31,8 +32,10 @@ func sweepCells(wide bool) []Case {
 		targets = append(targets, target{"token", g, ""})
 	}
 	targets = append(targets, target{"introspection", "", ""}, target{"revocation", "", "access"}, target{"revocation", "", "refresh"}, target{"device_authorization", "", ""})
-	appTypes := func(m string) []string {
-		if wide {
+	appTypes := func(m, pres string) []string {
+		// a request that merely NAMES a client (client_id only / Basic with an empty password) is enumerated for every application
+		// type in every tier: whether such a client is "public" is a matter of its registered auth method, not of its application type
+		if wide || pres == "none" || pres == "basic-empty" {
 			return []string{"web", "native", "user_agent"}
 		}
 		if m == mNone {
@@ -81,7 +84,7 @@ func sweepCells(wide bool) []Case {
 							for _, post := range []bool{true, false} {
 								for _, keys := range []bool{true, false} {
 									for _, ga := range gas {
-										for _, app := range appTypes(m) {
+										for _, app := range appTypes(m, pres) {
 											for _, sp := range specials {
 												for _, stored := range storedAxis(m) {
 													for _, lax := range laxAxis(pres) {
@@ -146,6 +149,73 @@ func sweepCells(wide bool) []Case {
 	return out
 }
 
+// historyCells enumerates the two-request histories around ONE registration change on ONE endpoint completely (every tier):
+//
+//	router(2) x target(11: the prelude targets of history_test.go; the earlier request and the request under test go to the same one)
+//	x change(28: client deleted(4 methods) / registered only now(4) / secret replaced(4) / key replaced under its kid(4) / auth method changed(12 ordered pairs))
+//	x earlier request presents: what is right for the registration then in force | the credential of the registration to come
+//	x request under test presents: what is right now | what was right before the change
+//
+// (all grants registered, key registered, service account, every flag on). State that an endpoint keeps about a client, a
+// credential or a refusal across requests shows up here without depending on what the sampled histories happen to contain.
+func historyCells() []Case {
+	var out []Case
+	type change struct {
+		kind string
+		alt  Alt
+	}
+	for _, router := range []string{"provider", "legacy"} {
+		for ti, tg := range stepTargets {
+			if ti > 0 && stepTargets[ti-1] == tg {
+				continue // (listed twice as a weight for the sampled histories)
+			}
+			for _, m := range methods {
+				changes := []change{{"deleted", Alt{}}, {"created", Alt{}}, {"rotated", Alt{Secret: true}}, {"rotated", Alt{Key: true}}}
+				for _, was := range methods {
+					if was != m {
+						changes = append(changes, change{"rotated", Alt{Method: was}})
+					}
+				}
+				for _, ch := range changes {
+					for _, early := range []string{"right-then", "future"} {
+						for _, late := range []string{"right-now", "stale"} {
+							if ch.kind == "created" && (early == "right-then" || late == "stale") {
+								continue // there is no registration before the change
+							}
+							c := Case{Router: router, Endpoint: tg.endpoint, Grant: tg.grant, TokenKind: tg.kind, ParamsIn: "body"}
+							if tg.grant == vkit.GBearer {
+								c.GrantAssertion = "right"
+							}
+							c.Flags = Flags{Post: true, PKJWT: true, Refresh: true, CC: true, TE: true, Device: true}
+							app := "web"
+							if m == mNone {
+								app = "native"
+							}
+							c.Reg = Reg{AuthMethod: m, AppType: app, Grants: vkit.AllGrants, HasKeys: true, Service: true}
+							c.Hist = &History{Change: ch.kind, Alt: ch.alt}
+							then := m
+							if ch.alt.Method != "" {
+								then = ch.alt.Method
+							}
+							st := Step{Who: "x", Endpoint: tg.endpoint, Grant: tg.grant, TokenKind: tg.kind, GrantAssertion: c.GrantAssertion, Pres: rightPres(then)}
+							if early == "future" {
+								st.Pres = futurePres(m, ch.kind)
+							}
+							c.Hist.Prelude = []Step{st}
+							c.Pres = rightPres(m)
+							if late == "stale" {
+								c.Pres = stalePres(c)
+							}
+							out = append(out, c)
+						}
+					}
+				}
+			}
+		}
+	}
+	return out
+}
+
 // laxAxis: the assertions whose standing depends on the verifier's subject check are enumerated under both kinds of verifier.
 func laxAxis(pres string) []bool {
 	if delegated(pres) || pres == "assert-issneq" || pres == "assert-right" {
@@ -189,8 +259,25 @@ func TestSweep(t *testing.T) {
 			t.Fatalf("VIOLATION %s (sweep cell %d): %s [%s]", prop.ID, i, fresh[0].Msg, fresh[0].FP)
 		}
 	}
-	rec.SetExtra("sweep_cells_run", n)
+	// the enumerated histories: all of them in every tier
+	hcells := historyCells()
+	hn := 0
+	for i, c := range hcells {
+		if i%shards != shard {
+			continue
+		}
+		res := run(c)
+		rec.Record(c, res)
+		hn++
+		if fresh := vkit.Judge(rec, prop.ID, res); len(fresh) > 0 {
+			rec.WriteFail(c, fresh)
+			rec.SetExtra("sweep_cells_run", n)
+			t.Fatalf("VIOLATION %s (history cell %d): %s [%s]", prop.ID, i, fresh[0].Msg, fresh[0].FP)
+		}
+	}
+	rec.SetExtra("sweep_history_cells_run", hn)
 	if shard == 0 {
+		rec.SetExtra("sweep_history_cells_total", len(hcells))
 		rec.SetExtra("sweep_cells_total", len(cells))
 		if wide {
 			rec.SetExtra("sweep_exhaustive", "router x auth method x target x presentation x registered x enabled x post flag x key x grant assertion x stored secret x optional parameter (requested_token_type / scope) x own / other client's material x app type x special characters")
@@ -198,5 +285,5 @@ func TestSweep(t *testing.T) {
 			rec.SetExtra("sweep_exhaustive", "no: quick tier runs every 12th cell of the narrow enumeration")
 		}
 	}
-	t.Logf("sweep: %d of %d cells", n, len(cells))
+	t.Logf("sweep: %d of %d cells, %d of %d history cells", n, len(cells), hn, len(hcells))
 }
